@@ -33,7 +33,34 @@ Definition lt_arg (w : bytes) (a : argument) : list ltok :=
   | _ => []
   end.
 
-Definition lt_args (args : list argument) : list ltok := flat_map (lt_arg [32%N]) args.
+(* a multi-line string is followed by a line feed (Command.tosieve writes it after the value): it becomes part of
+   the white space before the next token *)
+Definition is_ml (a : argument) : bool :=
+  match a with
+  | (TyString, VStr s) => match str_kind s with TMultiline => true | _ => false end
+  | _ => false
+  end.
+
+Definition carry_of (a : argument) : bytes := if is_ml a then [10%N] else [].
+
+Fixpoint lt_args_c (cin : bytes) (args : list argument) : list ltok :=
+  match args with
+  | [] => []
+  | a :: r => lt_arg (cin ++ [32%N]) a ++ lt_args_c (carry_of a) r
+  end.
+
+Fixpoint args_carry (cin : bytes) (args : list argument) : bytes :=
+  match args with [] => cin | a :: r => args_carry (carry_of a) r end.
+
+Definition lt_args (args : list argument) : list ltok := lt_args_c [] args.
+
+(* the line feed a test leaves pending *)
+Fixpoint tcarry (t : gtest) : bytes :=
+  match t with
+  | GSimple _ args => args_carry [] args
+  | GNot _ t' => tcarry t'
+  | GList _ _ => []
+  end.
 
 Fixpoint lt_test (ind : nat) (w : bytes) (t : gtest) : list ltok :=
   match t with
@@ -45,27 +72,27 @@ Fixpoint lt_test (ind : nat) (w : bytes) (t : gtest) : list ltok :=
          match l with
          | [] => []
          | [x] => lt_test 0 w1 x
-         | x :: r => lt_test 0 w1 x ++ ([], TComma, [44%N]) :: go [32%N] r
-         end) [] ts ++ [([], TRightParen, [41%N])]
+         | x :: r => lt_test 0 w1 x ++ (tcarry x, TComma, [44%N]) :: go [32%N] r
+         end) [] ts ++ [(tcarry (last ts (GList [] [])), TRightParen, [41%N])]
   end.
 
 Fixpoint lt_tests (w1 : bytes) (l : list gtest) : list ltok :=
   match l with
   | [] => []
   | [x] => lt_test 0 w1 x
-  | x :: r => lt_test 0 w1 x ++ ([], TComma, [44%N]) :: lt_tests [32%N] r
+  | x :: r => lt_test 0 w1 x ++ (tcarry x, TComma, [44%N]) :: lt_tests [32%N] r
   end.
 
 Lemma lt_test_list : forall ind w name ts,
   lt_test ind w (GList name ts) =
-  (w, TIdentifier, name) :: ([32%N], TLeftParen, [40%N]) :: lt_tests [] ts ++ [([], TRightParen, [41%N])].
+  (w, TIdentifier, name) :: ([32%N], TLeftParen, [40%N]) :: lt_tests [] ts ++ [(tcarry (last ts (GList [] [])), TRightParen, [41%N])].
 Proof. reflexivity. Qed.
 
 Fixpoint lt_cmd (ind : nat) (w : bytes) (c : gcmd) : list ltok :=
   match c with
-  | GAct name args => (w ++ sp ind, TIdentifier, name) :: lt_args args ++ [([], TSemicolon, [59%N])]
+  | GAct name args => (w ++ sp ind, TIdentifier, name) :: lt_args args ++ [(args_carry [] args, TSemicolon, [59%N])]
   | GCtl name t body =>
-      (w ++ sp ind, TIdentifier, name) :: lt_test ind (32%N :: sp ind) t ++ ([32%N], TLeftCBracket, [123%N]) ::
+      (w ++ sp ind, TIdentifier, name) :: lt_test ind (32%N :: sp ind) t ++ (tcarry t ++ [32%N], TLeftCBracket, [123%N]) ::
       flat_map (lt_cmd (ind + 4) [10%N]) body ++ [(10%N :: sp ind, TRightCBracket, [125%N])]
   | GElse name body =>
       (w ++ sp ind, TIdentifier, name) :: ([32%N], TLeftCBracket, [123%N]) ::
@@ -97,11 +124,17 @@ Proof.
   rewrite ltoks_app, ltoks_items. reflexivity.
 Qed.
 
-Lemma ltoks_args : forall args, ltoks (lt_args args) = flat_map arg_toks args.
+Lemma ltoks_args_c : forall args cin, ltoks (lt_args_c cin args) = flat_map arg_toks args.
 Proof.
-  induction args as [|a r IH]; [reflexivity|].
-  unfold lt_args in *. cbn [flat_map]. rewrite ltoks_app, ltoks_arg, IH. reflexivity.
+  induction args as [|a r IH]; intro cin; [reflexivity|].
+  cbn [lt_args_c flat_map]. rewrite ltoks_app, ltoks_arg, IH. reflexivity.
 Qed.
+
+Lemma ltoks_args : forall args, ltoks (lt_args args) = flat_map arg_toks args.
+Proof. intro args. apply ltoks_args_c. Qed.
+
+Lemma ltoks_cons : forall w k v l, ltoks ((w, k, v) :: l) = mk k v :: ltoks l.
+Proof. reflexivity. Qed.
 
 Lemma ltoks_test : forall t ind w, ltoks (lt_test ind w t) = toks_test t.
 Proof.
@@ -113,18 +146,13 @@ Proof.
       with (mk TIdentifier name :: ltoks (lt_test ind (32%N :: sp ind) t')).
     rewrite IH. reflexivity.
   - rewrite lt_test_list, toks_test_list.
-    change (ltoks ((w, TIdentifier, name) :: ([32%N], TLeftParen, [40%N]) :: lt_tests [] ts ++ [([], TRightParen, [41%N])]))
-      with (mk TIdentifier name :: mk TLeftParen [40%N] :: ltoks (lt_tests [] ts ++ [([], TRightParen, [41%N])])).
+    rewrite !ltoks_cons.
     rewrite ltoks_app. f_equal. f_equal. f_equal.
     generalize (@nil N). induction ts as [|x r IHr]; intro w1; [reflexivity|].
     cbn [lt_tests toks_tests]. destruct r as [|y r']; [apply IH|].
     rewrite ltoks_app, IH. f_equal.
-    change (ltoks (([], TComma, [44%N]) :: lt_tests [32%N] (y :: r'))) with (mk TComma [44%N] :: ltoks (lt_tests [32%N] (y :: r'))).
-    f_equal. apply IHr.
+    rewrite ltoks_cons. f_equal. apply IHr.
 Qed.
-
-Lemma ltoks_cons : forall w k v l, ltoks ((w, k, v) :: l) = mk k v :: ltoks l.
-Proof. reflexivity. Qed.
 
 Lemma ltoks_cmd : forall c ind w, ltoks (lt_cmd ind w c) = toks_cmd c.
 Proof.
@@ -148,7 +176,7 @@ Qed.
 Definition arg_pr (a : argument) : Prop :=
   match a with
   | (TyStringList, VList items) => items <> [] /\ Forall exact_string items
-  | (TyString, VStr s) => exact_string s
+  | (TyString, VStr s) => exact_string s \/ (str_kind s = TMultiline /\ ml_ok s)
   | (TyNumber, VStr s) => num_ok s
   | (TyTag, VStr s) => tag_ok s = true
   | _ => False
@@ -196,69 +224,133 @@ Proof.
   split; [exact space_nil|]. split; [exists 44%N; auto|]. split; [exact I|]. apply IH; [exact space_32|exact Hr].
 Qed.
 
-Lemma lt_arg_head : forall a, arg_pr a -> exists k v r, lt_arg [32%N] a = ([32%N], k, v) :: r.
+Lemma lt_arg_head : forall a w, arg_pr a -> exists k v r, lt_arg w a = (w, k, v) :: r.
 Proof.
-  intros [[] [s0|items|n0|ns0]] H; cbn in H; try contradiction; cbn [lt_arg]; eauto.
+  intros [[] [s0|items|n0|ns0]] w H; cbn in H; try contradiction; cbn [lt_arg]; eauto.
 Qed.
 
 Lemma exact_str_kind : forall s, exact_string s -> str_kind s = TString.
 Proof. intros s H. destruct (exact_string_shape s H) as (body & -> & _). reflexivity. Qed.
 
+Lemma is_ml_exact : forall s, exact_string s -> is_ml (TyString, VStr s) = false.
+Proof. intros s H. unfold is_ml. rewrite (exact_str_kind s H). reflexivity. Qed.
+
+(* what must follow an argument: after a multi-line string a line feed (or nothing), otherwise a delimiter *)
+Definition after_arg (a : argument) (X : bytes) : Prop :=
+  if is_ml a then X = [] \/ exists t, X = 10%N :: t else tail_delim X.
+
 Lemma lchain_arg : forall a w X,
-  all_space w -> arg_pr a -> tail_delim X -> lchain (lt_arg w a) X.
+  all_space w -> arg_pr a -> after_arg a X -> lchain (lt_arg w a) X.
 Proof.
-  intros [[] [s0|items|n0|ns0]] w X Hw H HX; cbn in H; try contradiction; cbn [lt_arg lchain lrender app];
-    try rewrite (exact_str_kind s0 H);
-    try (split; [exact Hw|]; split; [exact H|]; split; [first [exact HX|exact I]|exact I]).
-  (* list *)
-  destruct H as (Hne & Hall).
-  split; [exact Hw|]. split; [exists 91%N; auto|]. split; [exact I|].
-  apply lchain_app; [apply lchain_items; [exact space_nil|exact Hall]|].
-  apply (lchain_punct [] TRightBracket 93%N); [exact space_nil|reflexivity].
+  intros [[] [s0|items|n0|ns0]] w X Hw H HX; cbn in H; try contradiction; unfold after_arg in HX; cbn [lt_arg lchain lrender app].
+  - (* tag *) cbn [is_ml] in HX. split; [exact Hw|]. split; [exact H|]. split; [exact HX|exact I].
+  - (* string *)
+    destruct H as [H|(Hk & Hm)].
+    + rewrite (exact_str_kind s0 H). split; [exact Hw|]. split; [exact H|]. split; exact I.
+    + unfold is_ml in HX. rewrite Hk in *. split; [exact Hw|]. split; [exact Hm|]. split; [exact HX|exact I].
+  - (* list *)
+    destruct H as (Hne & Hall).
+    split; [exact Hw|]. split; [exists 91%N; auto|]. split; [exact I|].
+    apply lchain_app; [apply lchain_items; [exact space_nil|exact Hall]|].
+    apply (lchain_punct [] TRightBracket 93%N); [exact space_nil|reflexivity].
+  - (* number *) cbn [is_ml] in HX. split; [exact Hw|]. split; [exact H|]. split; [exact HX|exact I].
 Qed.
 
-Lemma args_tail_delim : forall args X, Forall arg_pr args -> tail_delim X -> tail_delim (lrender (lt_args args) ++ X).
+Lemma carry_space : forall a, all_space (carry_of a).
+Proof. intro a. unfold carry_of. destruct (is_ml a); reflexivity. Qed.
+
+(* the text of the remaining arguments starts with the pending line feed, then a blank (or what follows) *)
+Lemma rest_shape : forall r c Y, Forall arg_pr r ->
+  exists Z, lrender (lt_args_c c r) ++ args_carry c r ++ Y = c ++ Z /\
+            (r = [] -> Z = Y) /\ (r <> [] -> exists Z', Z = 32%N :: Z').
 Proof.
-  intros [|a r] X Hall HX; [exact HX|].
-  inversion Hall as [|a' r' Ha Hr]; subst. unfold lt_args. cbn [flat_map].
-  destruct (lt_arg_head a Ha) as (k & v & r0 & ->). cbn [app lrender]. apply delim_space_head. reflexivity.
+  intros [|a r] c Y H.
+  - exists Y. cbn. split; [reflexivity|]. split; [reflexivity|congruence].
+  - inversion H as [|a' r' Ha Hr]; subst. cbn [lt_args_c args_carry].
+    destruct (lt_arg_head a (c ++ [32%N]) Ha) as (k & v & r0 & ->). cbn [app lrender].
+    eexists. split; [rewrite <- !app_assoc; cbn [app]; reflexivity|]. split; [discriminate|]. intros _. eexists. reflexivity.
 Qed.
 
-Lemma lchain_args : forall args X, Forall arg_pr args -> tail_delim X -> lchain (lt_args args) X.
+Lemma after_arg_from_shape : forall a X Z,
+  X = carry_of a ++ Z -> tail_delim X -> after_arg a X.
 Proof.
-  induction args as [|a r IH]; intros X Hall HX; [exact I|].
-  inversion Hall as [|a' r' Ha Hr]; subst. unfold lt_args in *. cbn [flat_map].
-  apply lchain_app; [|apply IH; assumption].
-  apply lchain_arg; [exact space_32|exact Ha|]. apply (args_tail_delim r X Hr HX).
+  intros a X Z -> H. unfold after_arg, carry_of in *. destruct (is_ml a); [right; eexists; reflexivity|exact H].
 Qed.
+
+Lemma lchain_args_c : forall args cin Y,
+  Forall arg_pr args -> all_space cin -> tail_delim (args_carry cin args ++ Y) ->
+  lchain (lt_args_c cin args) (args_carry cin args ++ Y).
+Proof.
+  induction args as [|a r IH]; intros cin Y Hall Hc HY; [exact I|].
+  inversion Hall as [|a' r' Ha Hr]; subst. cbn [lt_args_c args_carry] in *.
+  apply lchain_app; [|apply IH; [exact Hr|apply carry_space|exact HY]].
+  apply lchain_arg; [apply space_app; [exact Hc|exact space_32]|exact Ha|].
+  destruct (rest_shape r (carry_of a) Y Hr) as (Z & E & Z0 & Z1). rewrite E.
+  apply (after_arg_from_shape a _ Z eq_refl).
+  destruct r as [|a2 r2].
+  - rewrite (Z0 eq_refl). cbn [args_carry] in HY. exact HY.
+  - destruct (Z1 ltac:(discriminate)) as (Z' & ->). unfold carry_of. destruct (is_ml a); reflexivity.
+Qed.
+
+(* what follows a command or test name *)
+Lemma args_after_name : forall args Y, Forall arg_pr args -> tail_delim (args_carry [] args ++ Y) ->
+  tail_delim (lrender (lt_args args) ++ args_carry [] args ++ Y).
+Proof.
+  intros args Y Hall HY. unfold lt_args. destruct (rest_shape args [] Y Hall) as (Z & E & Z0 & Z1). rewrite E. cbn [app].
+  destruct args as [|a r]; [rewrite (Z0 eq_refl); exact HY|].
+  destruct (Z1 ltac:(discriminate)) as (Z' & ->). reflexivity.
+Qed.
+
+Lemma lchain_args : forall args Y, Forall arg_pr args -> tail_delim (args_carry [] args ++ Y) ->
+  lchain (lt_args args) (args_carry [] args ++ Y).
+Proof. intros args Y H HY. apply lchain_args_c; [exact H|exact space_nil|exact HY]. Qed.
 
 Lemma lt_test_head : forall t ind w, exists name r, lt_test ind w t = (w, TIdentifier, name) :: r.
 Proof. intros [name args|name t'|name ts] ind w; cbn [lt_test]; eauto. Qed.
 
-Lemma lchain_test : forall t ind w X,
-  test_pr t -> all_space w -> tail_delim X -> lchain (lt_test ind w t) X.
+Lemma tcarry_space : forall t, all_space (tcarry t).
 Proof.
-  fix IH 1. intros t ind w X Hp Hw HX. destruct t as [name args|name t'|name ts].
-  - inversion Hp as [n a Hn Ha| |]; subst. cbn [lt_test lchain].
-    split; [exact Hw|]. split; [exact Hn|]. split; [apply args_tail_delim; assumption|]. apply lchain_args; assumption.
-  - inversion Hp as [|n t0 Hn Ht|]; subst. cbn [lt_test lchain].
+  fix IH 1. intros [name args|name t'|name ts]; cbn [tcarry]; [|apply IH|reflexivity].
+  assert (G : forall l c, all_space c -> all_space (args_carry c l)).
+  { induction l as [|a l IHl]; intros c Hc; [exact Hc|]. cbn [args_carry]. apply IHl. apply carry_space. }
+  apply G. exact space_nil.
+Qed.
+
+Lemma carry_delim : forall c Y, all_space c -> (c = [] -> tail_delim Y) -> tail_delim (c ++ Y).
+Proof.
+  intros [|x c] Y Hc HY; [apply HY; reflexivity|]. cbn. unfold all_space in Hc. cbn in Hc. apply andb_true_iff in Hc as [Hx _].
+  unfold delim. rewrite Hx. reflexivity.
+Qed.
+
+(* a test, followed by its pending line feed and then by something that starts with a delimiter *)
+Lemma lchain_test : forall t ind w Y,
+  test_pr t -> all_space w -> tail_delim (tcarry t ++ Y) -> lchain (lt_test ind w t) (tcarry t ++ Y).
+Proof.
+  fix IH 1. intros t ind w Y Hp Hw HY. destruct t as [name args|name t'|name ts].
+  - inversion Hp as [n a Hn Ha| |]; subst. cbn [lt_test lchain tcarry] in *.
+    split; [exact Hw|]. split; [exact Hn|]. split; [apply args_after_name; assumption|]. apply lchain_args; assumption.
+  - inversion Hp as [|n t0 Hn Ht|]; subst. cbn [lt_test lchain tcarry] in *.
     split; [exact Hw|]. split; [exact Hn|].
     split.
     { destruct (lt_test_head t' ind (32%N :: sp ind)) as (nm & r & ->). cbn [lrender app]. apply delim_space_head. reflexivity. }
-    apply IH; [exact Ht|apply space_cons32; apply sp_space|exact HX].
-  - inversion Hp as [| |n l Hn Hne Hall]; subst. rewrite lt_test_list. cbn [lchain lrender app].
+    apply IH; [exact Ht|apply space_cons32; apply sp_space|exact HY].
+  - inversion Hp as [| |n l Hn Hne Hall]; subst. rewrite lt_test_list. cbn [lchain lrender app tcarry] in *.
     split; [exact Hw|]. split; [exact Hn|]. split; [reflexivity|].
     split; [exact space_32|]. split; [exists 40%N; auto|]. split; [exact I|].
-    apply lchain_app; [|apply (lchain_punct [] TRightParen 41%N); [exact space_nil|reflexivity]].
+    apply lchain_app; [|apply (lchain_punct _ TRightParen 41%N); [apply tcarry_space|reflexivity]].
     cbn [lrender app].
-    assert (G : forall l w1 Y, Forall test_pr l -> all_space w1 -> tail_delim Y -> lchain (lt_tests w1 l) Y).
-    { induction l as [|x r IHr]; intros w1 Y Hl Hw1 HY; [exact I|].
-      inversion Hl as [|x' r' Hx Hr]; subst. cbn [lt_tests]. destruct r as [|y r2]; [apply IH; assumption|].
-      apply lchain_app.
-      - apply IH; [exact Hx|exact Hw1|]. reflexivity.
-      - cbn [lchain]. split; [exact space_nil|]. split; [exists 44%N; auto|]. split; [exact I|].
-        apply IHr; [exact Hr|exact space_32|exact HY]. }
-    apply G; [exact Hall|exact space_nil|reflexivity].
+    assert (G : forall l w1 Z, Forall test_pr l -> l <> [] -> all_space w1 ->
+                lchain (lt_tests w1 l) (tcarry (last l (GList [] [])) ++ 41%N :: Z)).
+    { induction l as [|x r IHr]; intros w1 Z Hl Hne0 Hw1; [congruence|].
+      inversion Hl as [|x' r' Hx Hr]; subst. cbn [lt_tests]. destruct r as [|y r2].
+      - cbn [last]. apply IH; [exact Hx|exact Hw1|]. apply carry_delim; [apply tcarry_space|reflexivity].
+      - apply lchain_app.
+        + cbn [lrender app]. rewrite <- app_assoc.
+          apply IH; [exact Hx|exact Hw1|]. apply carry_delim; [apply tcarry_space|reflexivity].
+        + cbn [lchain]. split; [apply tcarry_space|]. split; [exists 44%N; auto|]. split; [exact I|].
+          change (last (x :: y :: r2) (GList [] [])) with (last (y :: r2) (GList [] [])).
+          apply IHr; [exact Hr|discriminate|exact space_32]. }
+    rewrite <- app_assoc. apply G; [exact Hall|exact Hne|exact space_nil].
 Qed.
 
 Lemma lchain_cmd : forall c ind w X, cmd_pr c -> all_space w -> lchain (lt_cmd ind w c) X.
@@ -269,21 +361,28 @@ Proof.
     cbn [flat_map]. apply lchain_app; [apply IH; [exact Hx|exact space_10]|apply IHr; exact Hr]. }
   assert (Hclose : forall i Y, lchain [(10%N :: sp i, TRightCBracket, [125%N])] Y).
   { intros i Y. apply (lchain_punct _ TRightCBracket 125%N); [apply space_cons10; apply sp_space|reflexivity]. }
+  assert (Hacs : forall l c0, all_space c0 -> all_space (args_carry c0 l)).
+  { induction l as [|a l IHl]; intros c0 Hc0; [exact Hc0|]. cbn [args_carry]. apply IHl. apply carry_space. }
   destruct c as [name args|name t body|name body]; cbn [lt_cmd lchain].
   - inversion Hp as [n a Hn Ha| |]; subst.
     split; [apply space_app; [exact Hw|apply sp_space]|]. split; [exact Hn|].
-    assert (Hsemi : forall Y, tail_delim (lrender [([], TSemicolon, [59%N])] ++ Y)) by (intro Y; reflexivity).
+    assert (Hd : tail_delim (args_carry [] args ++ 59%N :: X)).
+    { apply carry_delim; [apply Hacs; exact space_nil|reflexivity]. }
     split.
-    { rewrite lrender_app, <- app_assoc. apply args_tail_delim; [exact Ha|apply Hsemi]. }
-    apply lchain_app; [apply lchain_args; [exact Ha|apply Hsemi]|].
-    apply (lchain_punct [] TSemicolon 59%N); [exact space_nil|reflexivity].
+    { rewrite lrender_app. cbn [lrender app]. rewrite <- !app_assoc. cbn [app].
+      apply (args_after_name args (59%N :: X) Ha Hd). }
+    apply lchain_app; [|apply (lchain_punct _ TSemicolon 59%N); [apply Hacs; exact space_nil|reflexivity]].
+    cbn [lrender app]. rewrite <- app_assoc. cbn [app].
+    apply (lchain_args args (59%N :: X) Ha Hd).
   - inversion Hp as [|n t0 b Hn Ht Hb|]; subst.
     split; [apply space_app; [exact Hw|apply sp_space]|]. split; [exact Hn|].
     split.
     { destruct (lt_test_head t ind (32%N :: sp ind)) as (nm & r & ->). cbn [lrender app]. apply delim_space_head. reflexivity. }
     apply lchain_app.
-    + apply lchain_test; [exact Ht|apply space_cons32; apply sp_space|]. reflexivity.
-    + cbn [lchain]. split; [exact space_32|]. split; [exists 123%N; auto|]. split; [exact I|].
+    + cbn [lrender app]. rewrite <- !app_assoc. cbn [app].
+      apply lchain_test; [exact Ht|apply space_cons32; apply sp_space|].
+      apply carry_delim; [apply tcarry_space|reflexivity].
+    + cbn [lchain]. split; [apply space_app; [apply tcarry_space|exact space_32]|]. split; [exists 123%N; auto|]. split; [exact I|].
       apply lchain_app; [apply Hbody; exact Hb|apply Hclose].
   - inversion Hp as [| |n b Hn Hb]; subst.
     split; [apply space_app; [exact Hw|apply sp_space]|]. split; [exact Hn|].
@@ -432,7 +531,9 @@ Inductive val_arg (d : cmddef) (name : bytes) (is_string : bool) : aval -> argum
 | va_string : forall s, exact_string s -> val_arg d name is_string (VStr s) (TyString, VStr s)
 | va_number : forall s, num_ok s -> is_string = false -> val_arg d name is_string (VStr s) (TyNumber, VStr s)
 | va_list : forall vs, vs <> [] -> Forall exact_string vs -> plain_name d name ->
-            val_arg d name is_string (VList vs) (TyStringList, VList vs).
+            val_arg d name is_string (VList vs) (TyStringList, VList vs)
+| va_ml : forall s, str_kind s = TMultiline -> ml_ok s -> is_string = true ->
+          val_arg d name is_string (VStr s) (TyString, VStr s).
 
 (* the maps [am] / [em] of a node, read slot by slot in the order of the definition, are the arguments [args] *)
 Inductive slots_args (d : cmddef) (am em : list (bytes * aval)) : list argdef -> list argument -> Prop :=
@@ -480,41 +581,72 @@ Qed.
 Lemma val_arg_pr : forall d name b v p, val_arg d name b v p -> arg_pr p.
 Proof. intros d name b v p H. destruct H; cbn; auto. Qed.
 
-Lemma val_layout : forall d pt0 pti name b v p,
-  val_arg d name b v p -> p_value d pt0 pti b name v = lrender (lt_arg [] p).
+Lemma ml_starts : forall s, ml_ok s -> starts_with [34%N] s = false /\ starts_with [91%N] s = false.
 Proof.
-  intros d pt0 pti name b v p H. destruct H as [s Hs|s Hs Hb|vs Hne Hall Hpl]; cbn [p_value lt_arg lrender app].
-  - unfold print_scalar. rewrite (exact_starts_quote s Hs). cbn [orb]. destruct b; rewrite ?app_nil_r; reflexivity.
-  - subst b. unfold print_scalar. rewrite app_nil_r. reflexivity.
+  intros s H. destruct (scan_multiline_some _ _ (H [] (or_introl eq_refl))) as (t & Hv). rewrite app_nil_r in Hv. subst s.
+  split; reflexivity.
+Qed.
+
+(* the text of a value: its tokens, then the line feed a multi-line string leaves behind *)
+Lemma val_layout : forall d pt0 pti name b v p,
+  val_arg d name b v p -> p_value d pt0 pti b name v = lrender (lt_arg [] p) ++ carry_of p.
+Proof.
+  intros d pt0 pti name b v p H. destruct H as [s Hs|s Hs Hb|vs Hne Hall Hpl|s Hk Hm Hb]; cbn [p_value lt_arg lrender app].
+  - unfold carry_of. rewrite (is_ml_exact s Hs).
+    unfold print_scalar. rewrite (exact_starts_quote s Hs). cbn [orb]. destruct b; rewrite ?app_nil_r; reflexivity.
+  - subst b. unfold print_scalar. rewrite !app_nil_r. reflexivity.
   - assert (Hp : print_items vs = 91%N :: lrender (lt_items [] vs ++ [([], TRightBracket, [93%N])])).
     { unfold print_items. rewrite (map_print_item_exact vs Hall), lrender_app, (join_items_layout vs [] Hne). reflexivity. }
+    unfold carry_of. cbn [is_ml]. rewrite app_nil_r.
     unfold plain_name in Hpl. destruct (find_def (d_args d) name) as [a0|]; [|exact Hp].
     destruct (a_type a0) as [|[] [|y l]]; try exact Hp. contradiction.
+  - subst b. unfold carry_of, is_ml. rewrite Hk. unfold print_scalar. destruct (ml_starts s Hm) as (A & B). rewrite A, B.
+    cbn [orb]. rewrite app_nil_r. reflexivity.
+Qed.
+
+Definition args_text (args : list argument) : bytes :=
+  concat (map (fun p => 32%N :: lrender (lt_arg [] p) ++ carry_of p) args).
+
+Lemma args_text_layout : forall args cin, Forall arg_pr args ->
+  cin ++ args_text args = lrender (lt_args_c cin args) ++ args_carry cin args.
+Proof.
+  induction args as [|a r IH]; intros cin H; [cbn; rewrite app_nil_r; reflexivity|].
+  inversion H as [|a' r' Ha Hr]; subst. unfold args_text in *. cbn [map concat lt_args_c args_carry].
+  rewrite lrender_app, (lt_arg_w a (cin ++ [32%N]) Ha), <- !app_assoc. cbn [app].
+  rewrite <- (IH (carry_of a) Hr). rewrite <- !app_assoc. reflexivity.
 Qed.
 
 Lemma args_layout : forall d am em ch cm pt0 pti defs args,
   slots_args d am em defs args ->
-  p_args d pt0 pti (Node d am em ch cm) defs = lrender (lt_args args) /\ Forall arg_pr args.
+  p_args d pt0 pti (Node d am em ch cm) defs = args_text args /\ Forall arg_pr args.
 Proof.
-  intros d am em ch cm pt0 pti defs args H.
+  intros d am em ch cm pt0 pti defs args H. unfold args_text.
   induction H as [|a rest args Ha H IH|a rest args s Ht Ha Hs Hno H IH|a rest args s ev ex p Ht Ha Hs He Hex Hv H IH
-                  |a rest args v p Ht Ha Hv H IH]; cbn [p_args node_args node_extra].
+                  |a rest args v p Ht Ha Hv H IH]; cbn [p_args node_args node_extra map concat].
   - split; [reflexivity|constructor].
   - rewrite Ha. exact IH.
   - destruct IH as (IH & IHp). rewrite Ha, Ht. split; [|constructor; [exact Hs|exact IHp]].
-    unfold lt_args in *. cbn [flat_map lt_arg]. cbn [app lrender]. rewrite <- IH.
+    rewrite <- IH. cbn [lt_arg lrender app]. change (carry_of (TyTag, VStr s)) with (@nil N). rewrite !app_nil_r.
     destruct Hno as [Hn|Hn]; rewrite Hn; [|destruct (assoc_get (a_name a) em)]; rewrite ?app_nil_r; reflexivity.
   - destruct IH as (IH & IHp). rewrite Ha, Ht, He, Hex.
     pose proof (val_arg_pr _ _ _ _ _ Hv) as Hpp.
     split; [|constructor; [exact Hs|constructor; [exact Hpp|exact IHp]]].
-    unfold lt_args in *. cbn [flat_map]. rewrite lrender_app, lrender_app, <- IH.
-    rewrite (lt_arg_w p [32%N] Hpp), (val_layout d pt0 pti _ _ _ _ Hv).
-    cbn [lt_arg lrender app]. rewrite <- !app_assoc. reflexivity.
+    rewrite <- IH, (val_layout d pt0 pti _ _ _ _ Hv).
+    cbn [lt_arg lrender app]. change (carry_of (TyTag, VStr s)) with (@nil N). rewrite !app_nil_r. cbn [app].
+    repeat (rewrite <- app_assoc || rewrite <- app_comm_cons). reflexivity.
   - destruct IH as (IH & IHp). rewrite Ha, Ht.
     pose proof (val_arg_pr _ _ _ _ _ Hv) as Hpp.
     split; [|constructor; [exact Hpp|exact IHp]].
-    unfold lt_args in *. cbn [flat_map]. rewrite lrender_app, <- IH.
-    rewrite (lt_arg_w p [32%N] Hpp), (val_layout d pt0 pti _ _ _ _ Hv). cbn [app]. reflexivity.
+    rewrite <- IH, (val_layout d pt0 pti _ _ _ _ Hv). cbn [app]. repeat (rewrite <- app_assoc || rewrite <- app_comm_cons). reflexivity.
+Qed.
+
+(* in the form used below: the tokens of the arguments, then the pending line feed *)
+Lemma args_layout_c : forall d am em ch cm pt0 pti defs args,
+  slots_args d am em defs args ->
+  p_args d pt0 pti (Node d am em ch cm) defs = lrender (lt_args args) ++ args_carry [] args /\ Forall arg_pr args.
+Proof.
+  intros d am em ch cm pt0 pti defs args H. destruct (args_layout d am em ch cm pt0 pti defs args H) as (E & P).
+  split; [|exact P]. rewrite E. exact (args_text_layout args [] P).
 Qed.
 
 (* ---------------------------------------------------------------- trees in canonical form *)
@@ -570,40 +702,45 @@ Lemma find_def_one : forall a, find_def [a] (a_name a) = Some a.
 Proof. intros. cbn. rewrite beq_refl'. reflexivity. Qed.
 
 Definition Ptest (t : gtest) (n : node) : Prop :=
-  forall f ind w, dt t <= f -> w ++ tosieve f n ind = lrender (lt_test ind (w ++ sp ind) t).
+  forall f ind w, dt t <= f -> w ++ tosieve f n ind = lrender (lt_test ind (w ++ sp ind) t) ++ tcarry t.
 
 Lemma lt_tests_layout : forall f ts ns,
-  Forall2 (fun t n => dt t <= f -> forall w, w ++ tosieve f n 0 = lrender (lt_test 0 w t)) ts ns ->
+  Forall2 (fun t n => dt t <= f -> forall w, w ++ tosieve f n 0 = lrender (lt_test 0 w t) ++ tcarry t) ts ns ->
   fold_right (fun x m => Nat.max (dt x) m) 0 ts <= f -> ts <> [] ->
-  forall w1, w1 ++ p_tests (fun t => tosieve f t 0) ns = lrender (lt_tests w1 ts).
+  forall w1, w1 ++ p_tests (fun t => tosieve f t 0) ns = lrender (lt_tests w1 ts) ++ tcarry (last ts (GList [] [])).
 Proof.
   intros f ts ns H. induction H as [|t n ts ns Ht Hr IH]; intros Hd Hne w1; [congruence|].
   cbn [fold_right] in Hd. cbn [p_tests lt_tests].
   destruct Hr as [|t2 n2 ts2 ns2 Ht2 Hr2].
-  - apply Ht. lia.
-  - rewrite lrender_app. cbn [lrender app]. rewrite <- (Ht ltac:(lia) w1).
-    rewrite <- (IH ltac:(lia) ltac:(discriminate) [32%N]). rewrite <- !app_assoc. reflexivity.
+  - cbn [last]. apply Ht. lia.
+  - change (last (t :: t2 :: ts2) (GList [] [])) with (last (t2 :: ts2) (GList [] [])).
+    rewrite lrender_app. cbn [lrender]. rewrite app_assoc, (Ht ltac:(lia) w1).
+    pose proof (IH ltac:(lia) ltac:(discriminate) [32%N]) as E. cbn [app] in E.
+    repeat (rewrite <- app_assoc || rewrite <- app_comm_cons). cbn [app]. rewrite E. reflexivity.
 Qed.
 
 Theorem test_layout : forall t n, canon_test t n -> Ptest t n.
 Proof.
   fix IH 3. intros t n H. destruct H as [d args am em Hid Hty Hs|d a t' n' Hid Hty Ha Hnt Ht|d a ts ns Hid Hty Ha Htl Hne Hall];
     intros f ind w Hf; (destruct f as [|f]; [cbn in Hf; lia|]); rewrite tosieve_S; cbn [node_def node_children].
-  - destruct (args_layout d am em [] [] (fun t => tosieve f t 0) (fun t => tosieve f t ind) _ _ Hs) as (E & _).
-    rewrite E. cbn [lt_test lrender]. rewrite Hty.
+  - destruct (args_layout_c d am em [] [] (fun t => tosieve f t 0) (fun t => tosieve f t ind) _ _ Hs) as (E & _).
+    rewrite E. cbn [lt_test lrender tcarry]. rewrite Hty.
     destruct (negb (d_accept_children d)); rewrite app_nil_r; unfold sp; rewrite <- !app_assoc; reflexivity.
   - rewrite Ha. cbn [p_args node_args]. rewrite assoc_get_one, Hnt. cbn [p_value]. rewrite Hty.
-    cbn [lt_test lrender dt] in *.
-    pose proof (IH t' n' Ht f ind [32%N] ltac:(lia)) as E. cbn [app] in E. rewrite <- E.
-    destruct (negb (d_accept_children d)); rewrite !app_nil_r; unfold sp; rewrite <- !app_assoc; reflexivity.
+    cbn [lt_test lrender dt tcarry] in *.
+    pose proof (IH t' n' Ht f ind [32%N] ltac:(lia)) as E. cbn [app] in E.
+    destruct (negb (d_accept_children d)); rewrite !app_nil_r; unfold sp;
+      repeat (rewrite <- app_assoc || rewrite <- app_comm_cons); cbn [app]; rewrite E; reflexivity.
   - rewrite Ha. cbn [p_args node_args]. rewrite assoc_get_one, Htl. cbn [atype_mem atype_eqb orb p_value].
-    rewrite Ha, find_def_one, Htl, Hty. rewrite lt_test_list. cbn [lrender dt] in *.
-    assert (G : Forall2 (fun t n => dt t <= f -> forall w, w ++ tosieve f n 0 = lrender (lt_test 0 w t)) ts ns).
+    rewrite Ha, find_def_one, Htl, Hty. rewrite lt_test_list. cbn [lrender dt tcarry] in *.
+    assert (G : Forall2 (fun t n => dt t <= f -> forall w, w ++ tosieve f n 0 = lrender (lt_test 0 w t) ++ tcarry t) ts ns).
     { clear Hne Hf. induction Hall as [|t0 n0 ts0 ns0 H0 Hr IHr]; constructor; [|exact IHr].
       intros Hd w0. pose proof (IH t0 n0 H0 f 0 w0 Hd) as E. rewrite sp0, app_nil_r in E. exact E. }
     pose proof (lt_tests_layout f ts ns G ltac:(lia) Hne []) as E. cbn [app] in E.
-    rewrite lrender_app, <- E. cbn [lrender app].
-    destruct (negb (d_accept_children d)); rewrite !app_nil_r; unfold sp; rewrite <- !app_assoc; reflexivity.
+    rewrite lrender_app. cbn [lrender app]. rewrite app_nil_r.
+    destruct (negb (d_accept_children d)); rewrite !app_nil_r; unfold sp;
+      repeat (rewrite <- app_assoc || rewrite <- app_comm_cons); cbn [app]; rewrite E;
+      repeat (rewrite <- app_assoc || rewrite <- app_comm_cons); reflexivity.
 Qed.
 
 Definition Pcmdl (c : gcmd) (n : node) : Prop :=
@@ -628,21 +765,25 @@ Proof.
     intro Hd. exact (IH c0 n0 H0 f i [10%N] Hd). }
   destruct H as [d args am em Hid Hty Hch Hs|d a t nt body ns Hid Hty Hch Ha Hnt Ht Hb|d body ns Hid Hty Hch Ha Hb];
     intros f ind w Hf; (destruct f as [|f]; [cbn in Hf; lia|]); rewrite tosieve_S; cbn [node_def node_children].
-  - destruct (args_layout d am em [] [] (fun t => tosieve f t 0) (fun t => tosieve f t ind) _ _ Hs) as (E & _).
+  - destruct (args_layout_c d am em [] [] (fun t => tosieve f t 0) (fun t => tosieve f t ind) _ _ Hs) as (E & _).
     rewrite E, Hch. cbn [negb lt_cmd lrender]. rewrite lrender_app. cbn [lrender app].
-    destruct (d_type d); try congruence; unfold sp; rewrite <- !app_assoc; reflexivity.
+    destruct (d_type d); try congruence; unfold sp; rewrite ?app_nil_r;
+      repeat (rewrite <- app_assoc || rewrite <- app_comm_cons); reflexivity.
   - rewrite Ha. cbn [p_args node_args]. rewrite assoc_get_one, Hnt. cbn [p_value]. rewrite Hch, Hty. cbn [negb].
     cbn [lt_cmd lrender dc] in *.
     pose proof (test_layout t nt Ht f ind [32%N] ltac:(lia)) as E. cbn [app] in E.
     pose proof (kids_layout f (ind + 4) body ns (G f (ind + 4) body ns Hb) ltac:(lia)) as K.
-    rewrite !lrender_app. cbn [lrender app]. rewrite <- E.
+    rewrite !lrender_app. cbn [lrender app].
     rewrite !lrender_app. cbn [lrender app].
     assert (K' : forall R, 10%N :: (p_kids (fun c0 => tosieve f c0 (ind + 4)) ns ++ R) =
                            lrender (flat_map (lt_cmd (ind + 4) [10%N]) body) ++ 10%N :: R).
     { intro R. change (10%N :: (p_kids (fun c0 => tosieve f c0 (ind + 4)) ns ++ R))
         with (([10%N] ++ p_kids (fun c0 => tosieve f c0 (ind + 4)) ns) ++ R). rewrite K, <- app_assoc. reflexivity. }
     cbn [app]. rewrite K'. unfold sp. rewrite ?app_nil_r.
-    repeat (rewrite <- app_assoc || rewrite <- app_comm_cons). reflexivity.
+    repeat (rewrite <- app_assoc || rewrite <- app_comm_cons). cbn [app].
+    replace (32%N :: tosieve f nt ind ++ 32%N :: 123%N :: lrender (flat_map (lt_cmd (ind + 4) [10%N]) body) ++ 10%N :: spaces ind ++ [125%N; 10%N])
+      with ((32%N :: tosieve f nt ind) ++ 32%N :: 123%N :: lrender (flat_map (lt_cmd (ind + 4) [10%N]) body) ++ 10%N :: spaces ind ++ [125%N; 10%N]) by reflexivity.
+    rewrite E. repeat (rewrite <- app_assoc || rewrite <- app_comm_cons). reflexivity.
   - rewrite Ha. cbn [p_args]. rewrite Hch, Hty. cbn [negb].
     cbn [lt_cmd lrender dc] in *.
     pose proof (kids_layout f (ind + 4) body ns (G f (ind + 4) body ns Hb) ltac:(lia)) as K.
